@@ -708,3 +708,29 @@ func TestKF_InvalidRWModePanicsInCommit(t *testing.T) {
 	_ = db.Update(func(tx *Tx) error { return tx.Put("b", []byte("k"), []byte("v"), Persistent) })
 	db.Close()
 }
+
+// fixed: in sparse index mode GetAll of a bucket that was never written created an empty meta file; the next Open failed
+func TestKF_SparseGetAllOfUnknownBucketBreaksOpen(t *testing.T) {
+	dir, _ := ioutil.TempDir("", "kf")
+	defer os.RemoveAll(dir)
+	opt := DefaultOptions
+	opt.Dir = dir
+	opt.EntryIdxMode = HintBPTSparseIdxMode
+	db, err := Open(opt)
+	if err != nil {
+		t.Fatal(err)
+	}
+	if err := db.Update(func(tx *Tx) error { return tx.Put("bk", []byte("k"), []byte("v"), Persistent) }); err != nil {
+		t.Fatal(err)
+	}
+	_ = db.View(func(tx *Tx) error {
+		_, _ = tx.GetAll("never-written")
+		return nil
+	})
+	db.Close()
+	db, err = Open(opt)
+	if err != nil {
+		t.Fatalf("REPRODUCED: reopen after a read of a bucket that was never written: %v", err)
+	}
+	db.Close()
+}
